@@ -260,6 +260,34 @@ def r_alloc(ctx, P):
                     if re.match(r'^(std::option::Option<)?(usize|u32|u64|i64|isize|u128)>?$', cty):
                         tainted.add((callee, k + 1))
                         changed = True
+    # tainted integer FIELDS: a struct field (of integer type) that some constructor / store fills from a declared length or from a
+    # tainted parameter carries the declared length to every method of the type (`Take.limit` <- read_take(len))
+    import zones
+    ftab = zones.field_table(f)
+    tainted_fields = {}
+    for p, b in bodies.items():
+        def note(fname, o, where):
+            ty = ftab.get(fname)
+            if ty not in ('usize', 'u32', 'u64'):
+                return
+            og = b.operand_origins(o)
+            if has_origin(og, SANITISER):
+                return
+            if has_origin(og, TAINT) or any((p, int(x[6:])) in tainted for x in og if x.startswith('param:')):
+                tainted_fields.setdefault(fname, where)
+        for i, blk in enumerate(b.blocks):
+            if blk['c']:
+                continue
+            for st in blk['s']:
+                r_ = st['r']
+                if r_['k'] == 'agg' and r_.get('ak') == 'adt' and r_.get('fields'):
+                    short = r_['adt'].split('::')[-1]
+                    q = short if r_['v'] == short else '%s::%s' % (short, r_['v'])
+                    for fn_, o in zip(r_['fields'], r_['o']):
+                        note('%s.%s' % (q, fn_), o, '%s:%d' % (b.r['file'], st['ln']))
+                d = st['d']
+                if d['pr'] and d['pr'][-1].startswith('.') and r_['k'] == 'use':
+                    note(d['pr'][-1][1:], r_['o'][0], '%s:%d' % (b.r['file'], st['ln']))
     rev = errs.load_reviewed(os.path.join(HERE, 'reviewed', 'alloc_reviewed.txt'))
     n = 0
     seen = set()
@@ -281,6 +309,7 @@ def r_alloc(ctx, P):
             cnt[fn] += 1
             og = b.operand_origins(a)
             src = [x for x in og if re.search(TAINT, x)] + ['param:%d (tainted by a caller)' % int(x[6:]) for x in og if x.startswith('param:') and (p, int(x[6:])) in tainted]
+            src += ['%s (filled from a declared length at %s)' % (x, tainted_fields[x[6:]]) for x in og if x.startswith('field:') and x[6:] in tainted_fields]
             kk = '%s:S19-1:alloc:%s' % (P, key)
             if not src or is_narrow_type(b, a):
                 ctx.ok(kk, 'R-alloc', 'allocation size in %s does not derive from a declared 32-bit length' % p.split('::')[-1], function=p, site=site(b, i))
@@ -304,7 +333,7 @@ def r_alloc(ctx, P):
             ctx.violation(kk, 'R-alloc', 'allocation in %s is sized by a value that derives from a declared length (%s) without clamp or ceiling' % (p, ', '.join(s.split(':', 1)[-1].split('::')[-1] for s in src[:3])),
                           function=p, site=site(b, i), missing='def-use: size <- %s' % src[:4])
     ctx.floor(P + ':S19-1:floor', 'allocation sinks examined', n, 60)
-    ctx.extra = dict(getattr(ctx, 'extra', {}), alloc_sinks=n, tainted_params=sorted('%s#%d' % x for x in tainted)[:60], tainted_param_count=len(tainted))
+    ctx.extra = dict(getattr(ctx, 'extra', {}), alloc_tainted_fields=dict(tainted_fields), alloc_sinks=n, tainted_params=sorted('%s#%d' % x for x in tainted)[:60], tainted_param_count=len(tainted))
     # confirmed sanitiser instances must stay
     for path, what in (('parsing_reader::BufReadParsing::take_bytes', 'take_bytes clamps its up-front capacity with min()'),
                        ('packet::signature::de::subpackets', 'subpacket vector capacity is min(len, 32)')):
@@ -461,3 +490,5 @@ def rec(ctx, P):
         if not any(all(any(m == x or (m.endswith('::') and x.startswith(m)) for m in members) for x in c) for members, why in REC_REVIEWED.values()):
             unknown.append(c)
     ctx.check(P + ':S19-4:rec-inventory', 'R-rec', 'every recursive component is in the reviewed inventory (shared with C04)', not unknown, missing=unknown[:3] or None, count=len(comps))
+    from rules import c04
+    c04.embedded_depth_guard(ctx, P)
